@@ -156,6 +156,7 @@ class ForecasterOnePhase:
             p0,
             bounds=bounds,
             gtol=None,  # the gradient test is absolute, so it depends on the units of production
+            xtol=1e-12,  # the default step test (1e-8) can be met at a kink of a piecewise-linear recovery curve, far from the minimum
             x_scale="jac",  # M and tau can differ by many orders of magnitude
         )
         self.time_on_production = time_on_production
